@@ -21,7 +21,7 @@ RULE = ("1-8 stations registered in random order, then 1-25 add/remove/update/qu
         ">=1 remove or update and >=1 composed Current; distinct = distinct operation/expression-shape sequence")
 PROBES = ["composed_current", "scalar_multiple_operand", "remove", "update", "update_new_name", "rejected_unknown_station",
           "rejected_unknown_name", "late_register_rejected", "subset_query_reordered", "time_subset_query", "time_window_permuted",
-          "duplicate_name", "unnamed", "series_leaf", "json_restart", "plain_series_operand", "update_derived_from_old_row", "time_window_negative", "shared_operand_world"]
+          "duplicate_name", "unnamed", "series_leaf", "json_restart", "plain_series_operand", "update_derived_from_old_row", "time_window_negative", "shared_operand_world", "late_register_existing_id", "name_collision_beyond_alias"]
 FAULT_DIMENSION = "restart (network saved to JSON and loaded mid-history); rejected operations (unknown station / unknown name / late register_evse); weakest sense in which the family applies"
 REAL_VS_STUB = "real: ChargingNetwork, Current, EVSE; ours: dict-based reference network (refnet)"
 ASSUMPTIONS = ["row order is only required to be aligned with constraint_index (the position of an updated row is not constrained)",
@@ -182,6 +182,8 @@ def gen(rs, tier):
                 nm = None
             elif q < 0.2 and names:
                 cand = [x for x in names if x not in dup_used and x is not None and not x.endswith("_v2")]
+                if r.random() < 0.35 and dup_used:
+                    cand = sorted(dup_used)          # the same name a third time (its '_v2' alias is taken as well)
                 if cand:
                     nm = r.choice(cand)
                     dup_used.add(nm)
@@ -205,7 +207,7 @@ def gen(rs, tier):
             ops.append({"op": "query", "seed": r.randrange(10 ** 6), "subset": r.random() < 0.7, "times": r.random() < 0.5,
                         "linear": r.random() < 0.25})
         elif k < 0.975:
-            ops.append({"op": "late_register"})
+            ops.append({"op": "late_register", "existing": r.random() < 0.4})
         else:
             ops.append({"op": "roundtrip"})      # restart: the network is saved to JSON, loaded, and the history continues
     return {"seed": rs, "stations": stations, "phases": phases, "ops": ops}
@@ -297,6 +299,11 @@ def check(sc):
                     after = list(nw.constraint_index)
                     if len(set(after)) != len(after) and len(after) == len(before) + 1 and (nm is None or nm in names):
                         out.inconclusive += 1   # auto-generated / suffixed name collided: outside the stated assumptions
+                        out.probe("name_collision_beyond_alias")
+                        if not (nw.constraint_matrix.shape[0] == len(nw.magnitudes) == len(after)):
+                            # ... but whatever the names are, there is one row, one limit and one name per constraint
+                            out.add("C12/limits_length", "op %d (add under a name whose alias is taken too): %d rows, %d limits, %d names"
+                                    % (i, nw.constraint_matrix.shape[0], len(nw.magnitudes), len(after)))
                         break
                     new = [x for x in after if x not in before] if len(set(after)) == len(after) else None
                     if len(after) != len(before) + 1 or not new or len(new) != 1:
@@ -389,6 +396,11 @@ def check(sc):
                 elif o == "late_register":
                     try:
                         late = "LATE%d" % i
+                        if ever and op.get("existing") and stations:
+                            # registering an id that is already registered, after constraints exist: refused like any other
+                            # (phase angles and voltages of constrained stations are frozen)
+                            late = stations[i % len(stations)]
+                            out.probe("late_register_existing_id")
                         nw.register_evse(sut.EVSE(late, max_rate=32), 208, 0)
                         if ever:
                             out.add("C12/late_register_accepted", "op %d: register_evse succeeded although constraints exist/existed" % i)
